@@ -22,7 +22,8 @@ def gen_one(rng):
     for i in range(n):
         for _ in range(rng.choice([0, 0, 1, 1, 2, 3])):
             nm = rng.choice(NAMES)
-            text += "connection %s\n" % nm
+            # blanks around the name (also trailing ones) are not part of it
+            text += rng.choice(["connection %s\n", "connection %s\n", "connection %s \n", "connection  %s\t\n", "connection\t%s  \n"]) % nm
             pending = nm
         kind = rng.choice(["statement", "statement", "query", "system", "skipped", "failing", "blank", "control"])
         if kind == "statement":
